@@ -1088,6 +1088,7 @@ def differential(ctx, cfgs, n_generated, label):
     c["generated_snippet_kinds"] = kind_hist
     c["run_s_" + label] = round(run_s, 1)
     c.setdefault("samples", []).extend(samples)
+    stream_differential(ctx, cfgs, bins)
     c["rule"] = ("programs = every script under yarel/tests/scripts (those with `import` through the harness' module "
                  "loader with all suite modules offered) + generated programs (2-8 independent snippets drawn from "
                  "closures/classes/fibers/exceptions/recursion(64-frame limit)/wide frames/strings/maps/iterators/heavy "
@@ -1095,7 +1096,93 @@ def differential(ctx, cfgs, n_generated, label):
                  "evaluations = programs x configurations; a program is non-trivial when the plain release binary "
                  "(paced GC) reports >= 1 collection in its S record for it (so the collection schedules of paced and "
                  "collect-always builds really differ) AND its source creates >= 2 fibers or uses try with throw/catch; "
-                 "counted over distinct sources (sha256) on which all builds agree and none panics")
+                 "counted over distinct sources (sha256) on which all builds agree and none panics; in addition multi-snippet "
+                 "streams on ONE interpreter (C02's generator: a failing snippet, garbage pressure, 3-6 snippets using the "
+                 "survivors), each compared snippet by snippet across the configurations (counted in evaluations, not in "
+                 "distinct_nontrivial)")
+
+
+def split_snips(rec):
+    """records of a multi-snippet request (`repl` / `c02repl`): one yvlib.Record per `SNIP <i>` section"""
+    parts = []
+    cur = None
+    for l in rec.lines:
+        if l.startswith("SNIP "):
+            cur = []
+            parts.append(cur)
+        elif cur is not None:
+            cur.append(l)
+    return [yvlib.Record(p) for p in parts]
+
+
+def canon_stream(rec):
+    if rec.crashed:
+        return ("crash", rec.crashed, [canon(x) for x in split_snips(rec)])
+    return ("done", "", [canon(x) for x in split_snips(rec)])
+
+
+def stream_differential(ctx, cfgs, bins):
+    """Several runs on ONE interpreter: a failing snippet (uncaught error at top level / in nested calls / in a fiber /
+    in a fiber called by a fiber / in iterator callbacks / constructor / import / class declaration, with closures over
+    locals of every level stored in globals before the failure) followed by snippets that allocate and then use whatever
+    survived.  Generator: C02's `gen_repl_cases` (REPL_SETUPS x REPL_FAIL x REPL_TOUCH), reused; oracle here: every
+    configuration answers every snippet with the same lines, outcome and messages."""
+    try:
+        from props import C02
+        cases = C02.gen_repl_cases(ctx, ctx.quick())
+        mods = ",".join("%s=%s" % (hx(k), hx(v)) for k, v in C02.REPL_MODS.items())
+    except Exception as e:      # another owner's file: degrade, say so
+        ctx.notes.append("multi-snippet streams skipped: C02's generator is unavailable (%s)" % e)
+        return
+    # own additions: the failing snippet is followed by garbage pressure BEFORE the survivors are used
+    pressure = "var gp = []; var gq = 0; while gq < 40 { gp.push([gq, (gq, \"p${gq}\")]); gq = gq + 1; } print(gp.len());"
+    lines = []
+    for name, snips in cases:
+        snips = list(snips)
+        snips.insert(2, pressure)
+        lines.append("c02repl %s %s" % (mods, " ".join(hx(sn) for sn in snips)))
+    t0 = time.time()
+    results = run_everywhere(bins, lines)
+    if not any(l.startswith("SNIP ") for l in results[0][0].lines):
+        ctx.notes.append("multi-snippet streams skipped: harness command c02repl unavailable")
+        return
+    agree = disagree = all_fail = nsnip = reported = 0
+    for j, (name, snips) in enumerate(cases):
+        sigs = [canon_stream(results[i][j]) for i in range(len(cfgs))]
+        if any(s != sigs[0] for s in sigs[1:]):
+            again = [yvlib.run_harness(b, [lines[j]], case_timeout_ms=6 * TIMEOUT_MS, shards=1)[0] for b in bins]
+            sigs = [canon_stream(r) for r in again]
+        first = sigs[0]
+        nsnip += len(first[2])
+        if all(s == first for s in sigs[1:]):
+            agree += 1
+            if first[0] == "crash" or any(x[1] in ("panic", "crash", "none") for x in first[2]):
+                all_fail += 1
+            continue
+        disagree += 1
+        if reported >= 3:
+            continue
+        reported += 1
+        other = next(i for i in range(1, len(cfgs)) if sigs[i] != first)
+        # first snippet whose answer differs
+        k = next((i for i, (a, b) in enumerate(zip(first[2], sigs[other][2])) if a != b), min(len(first[2]), len(sigs[other][2])))
+        show = lambda sg: {"stream_end": sg[0] + (":" + sg[1] if sg[1] else ""), "snippet": k,
+                           "answer": list(sg[2][k]) if k < len(sg[2]) else "no answer (the process died before)"}
+        ctx.violation("builds disagree on a multi-snippet stream on one interpreter (%s)" % name,
+                      input={"stream": [yvlib.unhx(x).decode() for x in lines[j].split(" ")[2:]],
+                             "request": lines[j], "configurations": [cfg_name(*cfgs[0]), cfg_name(*cfgs[other])]},
+                      expected=dict(show(first), build=cfg_name(*cfgs[0])), actual=dict(show(sigs[other]), build=cfg_name(*cfgs[other])),
+                      known_class=None)
+    c = ctx.cov
+    c["streams"] = c.get("streams", 0) + len(cases)
+    c["stream_snippets"] = c.get("stream_snippets", 0) + nsnip
+    c["streams_all_builds_agree"] = c.get("streams_all_builds_agree", 0) + agree
+    c["streams_all_builds_fail_alike_not_reported"] = c.get("streams_all_builds_fail_alike_not_reported", 0) + all_fail
+    c["disagreements_checked"] = c.get("disagreements_checked", 0) + disagree
+    c["evaluations"] = c.get("evaluations", 0) + len(cases) * len(cfgs)
+    c["run_s_streams"] = round(c.get("run_s_streams", 0) + time.time() - t0, 1)
+    if cases:
+        c.setdefault("samples", []).append({"stream": cases[0][0], "snippets": [x[:300] for x in cases[0][1][:4]]})
 
 
 def replay(ctx):
@@ -1108,6 +1195,15 @@ def replay(ctx):
         cfgs.append((parts[0], tuple(parts[1:])))
     bins = build_all(ctx, cfgs)
     recs = [yvlib.run_harness(b, [inp["request"]], case_timeout_ms=TIMEOUT_MS, shards=1)[0] for b in bins]
+    if "stream" in inp:
+        ssig = [canon_stream(r) for r in recs]
+        ctx.cov.update({"evaluations": len(bins), "distinct_nontrivial": 0, "rule": "replay of one multi-snippet stream in the two configurations",
+                        "samples": [inp["stream"]]})
+        if any(x != ssig[0] for x in ssig[1:]):
+            ctx.violation("builds disagree on a multi-snippet stream on one interpreter (replay)", input=inp,
+                          expected={"build": names[0], "answers": ssig[0]}, actual={"build": names[-1], "answers": ssig[-1]},
+                          known_class=rp.get("known_class"))
+        return
     sigs = [canon(r) for r in recs]
     ctx.cov.update({"evaluations": len(bins), "distinct_nontrivial": 0, "rule": "replay of one program in the two configurations",
                     "samples": [inp.get("program", "")[:500]]})
